@@ -1,6 +1,9 @@
 package ech
 
-import "context"
+import (
+	"context"
+	"errors"
+)
 
 // C09: ECH acceptance depends only on holding the right key, not on the other keys.
 //
@@ -17,7 +20,14 @@ func verifC09KeySets() {
 	target := vMakeKey(0, vByte(), all, name)
 	suite := all[vInt(0, 1)]
 	outer := vHello{version: 0x0303, random: vBytes(32), sid: vBytes(1), suites: []byte{0x13, 0x01}, comp: []byte{0}}
-	outer.exts = []vExt{vSNI(name), vVersions(0x0304), {0xfe0d, nil}}
+	// the outer server name is the target config's public name - or another key's public name,
+	// which must not make the hello acceptable
+	wrongSNI := vBool()
+	sni := name
+	if wrongSNI {
+		sni = []byte("other.example")
+	}
+	outer.exts = []vExt{vSNI(sni), vVersions(0x0304), {0xfe0d, nil}}
 	innerName := vBytes(2)
 	inner := vHello{version: 0x0303, random: vBytes(32), suites: []byte{0x13, 0x02}, comp: []byte{0},
 		exts: []vExt{vSNI(innerName), vECHInner(), vVersions(0x0304)}}
@@ -49,8 +59,18 @@ func verifC09KeySets() {
 		}
 		keys = append(keys, vMakeKey(i+1, vByte(), suites, name).key())
 	}
-	c, err := NewConn(context.Background(), newVTransport(s.outer.record()), WithKeys(keys))
+	// the keys may come through one WithKeys option or be spread over two
+	opts := []Option{WithKeys(keys)}
+	if cut := vInt(0, n); cut > 0 && cut < n {
+		opts = []Option{WithKeys(keys[:cut]), WithKeys(keys[cut:])}
+	}
+	c, err := NewConn(context.Background(), newVTransport(s.outer.record()), opts...)
 	vReach("ran")
+	if pos >= 0 && wrongSNI {
+		vAssert(err != nil && errors.Is(err, ErrIllegalParameter), "an authentic payload under an outer name that is not its config's public name is refused, whatever other keys (and their public names) are configured")
+		vReach("wrong-sni")
+		return
+	}
 	if pos >= 0 {
 		vAssert(err == nil, "holding the target key: no error whatever the other keys are")
 		vAssert(c.ECHAccepted(), "holding the target key: accepted whatever the other keys are")
